@@ -398,6 +398,14 @@ func freshLocalPointer(v ssa.Value) bool {
 	if !ok || ld.Op != token.MUL {
 		return false
 	}
+	if fa, ok := ld.X.(*ssa.FieldAddr); ok {
+		// a pointer field of a local struct variable that only ever receives
+		// objects allocated here: b := T{p: &x}; b.p.f = ...
+		if base, ok := fa.X.(*ssa.Alloc); ok {
+			return freshStructField(base, fa.Field, 0)
+		}
+		return false
+	}
 	cell, ok := ld.X.(*ssa.Alloc)
 	if !ok || cell.Heap && false {
 		return false
@@ -412,6 +420,47 @@ func freshLocalPointer(v ssa.Value) bool {
 		a, isAlloc := st.Val.(*ssa.Alloc)
 		if !isAlloc || !a.Heap {
 			return false
+		}
+	}
+	return n > 0
+}
+
+// freshStructField: every store that can set field f of the local struct
+// variable x stores an object allocated by this function - either directly
+// (&x.f = new ...) or by copying another local struct with the same property.
+func freshStructField(x *ssa.Alloc, f int, depth int) bool {
+	if depth > 4 {
+		return false
+	}
+	n := 0
+	for _, ref := range *x.Referrers() {
+		switch r := ref.(type) {
+		case *ssa.FieldAddr:
+			if r.X != ssa.Value(x) || r.Field != f {
+				continue
+			}
+			for _, r2 := range *r.Referrers() {
+				if st, ok := r2.(*ssa.Store); ok && st.Addr == ssa.Value(r) {
+					n++
+					if a, ok := st.Val.(*ssa.Alloc); !ok || !a.Heap {
+						return false
+					}
+				}
+			}
+		case *ssa.Store:
+			if r.Addr != ssa.Value(x) {
+				continue
+			}
+			// whole-struct assignment: *x = *y with y another local struct
+			ld, ok := r.Val.(*ssa.UnOp)
+			if !ok || ld.Op != token.MUL {
+				return false
+			}
+			y, ok := ld.X.(*ssa.Alloc)
+			if !ok || !freshStructField(y, f, depth+1) {
+				return false
+			}
+			n++
 		}
 	}
 	return n > 0
